@@ -4,6 +4,7 @@
 //!   vh record <prop> <seed> <n> <trace.ndjson>         direction V (implementation -> spec)
 mod c04;
 mod c06;
+mod c09;
 mod c10;
 mod c12;
 mod c13;
@@ -31,6 +32,7 @@ fn main() {
       match args[2].as_str() {
         "C04" => c04::replay(&cases, &mut rep),
         "C06" => c06::replay(&cases, &mut rep),
+        "C09" => c09::replay(&cases, &mut rep),
         "C10" => c10::replay(&cases, &mut rep),
         "C12" => c12::replay(&cases, &mut rep),
         "C13" => c13::replay(&cases, &mut rep),
